@@ -258,7 +258,12 @@ func VH_C03_datadog_metrics() {
 		points += `]`
 		item := `"metric":"` + se.name + `"`
 		if se.hasRes {
-			item += `,"resources":[{"name":"h` + string(rune('a'+s)) + `","type":"host"}]`
+			res := `"resources":[{"name":"h` + string(rune('a'+s)) + `","type":"host"}]`
+			if vrt.Bool("resources-before-metric") {
+				item = res + "," + item
+			} else {
+				item += "," + res
+			}
 		}
 		if vrt.Bool("points-first") {
 			item = points + "," + item
